@@ -191,7 +191,7 @@ def run_tlc(module, cfg, name, workers=None, timeout=600, simulate=None, depth=N
     os.makedirs(wdir)
     tla = module if os.path.isabs(module) else os.path.join(SPEC, module + ".tla")
     cfgp = cfg if os.path.isabs(cfg) else os.path.join(SPEC, cfg)
-    jopts = ["-XX:+UseParallelGC", "-Xmx" + heap, "-DTLA-Library=" + SPEC]
+    jopts = ["-XX:+UseParallelGC", "-Xmx" + heap, "-Xss64m", "-DTLA-Library=" + SPEC]
     if dfs:
         jopts.append("-Dtlc2.tool.queue.IStateQueue=StateDeque")
     cmd = ["java"] + jopts + ["-cp", TLA_JAR, "tlc2.TLC",
